@@ -194,7 +194,13 @@ fn sweep_mem(rep: &Reporter, c: &Counters, thorough: bool) -> usize {
             }
         }
     }
-    let regvals: Vec<u16> = if thorough { A6.to_vec() } else { vec![0, 1, 0x8000, 0xFFFF] };
+    // thorough: the 12-value word lattice plus mid-range values (no boundary, bytes differing), and ten segment values
+    let regvals: Vec<u16> = if thorough {
+        w16_small().iter().map(|v| *v as u16).chain([0x1234u16, 0x00F8, 0xABCD]).collect()
+    } else {
+        vec![0, 1, 0x8000, 0xFFFF]
+    };
+    let segvals: Vec<u16> = if thorough { S6.iter().cloned().chain([0x1234u16, 0x8000, 0xABCD, 0xFFFE]).collect() } else { S6.to_vec() };
     let n = shapes.len();
     shapes.par_iter().for_each(|(cons, w, m)| {
         with_worker(|wk| {
@@ -215,7 +221,7 @@ fn sweep_mem(rep: &Reporter, c: &Counters, thorough: bool) -> usize {
             let idxs: &[u16] = if nregs >= 2 { &regvals } else { &[0] };
             for b in bases {
                 for x in idxs {
-                    for sv in S6.iter() {
+                    for sv in segvals.iter() {
                         let mv: u32 = if *w == W::B { 0x7C } else { 0x7C3E };
                         let rv: u32 = if *w == W::B { 0x91 } else { 0x91A7 };
                         let (pre, addr, off, segv) = state_for(&i, m, *w, *b, *x, *sv, mv, rv, &p.dc);
@@ -385,7 +391,7 @@ pub fn run(tier: &Tier) -> i32 {
     let mut cov = Coverage::default();
     cov.exhaustive = true;
     cov.rule = "every case = (consumer instruction with one memory operand, pre-state): all address forms of syntax.md (direct, indirect, based, indexed, based-indexed, with 8 displacements incl. negative and wrapping ones) x {no override, ES, CS, SS, DS} x both widths x 12 consumers (loads, stores, read-modify-writes, xchg, lea, destination aliasing an address register) x base/index register lattice x 6 segment values chosen so that seg*16+off straddles 2^20, plus, for every shape, register values solved so that seg*16+off is exactly 0xFFFFE, 0xFFFFF, 2^20, 2^20+1, 2^20+2 for three segment values. The operand value sits only at the reference address; decoy markers sit at the same offset in the other segments, at the unwrapped offset and at the neighbouring bytes; the whole 1 MB is compared after every execution. Plus data-label operands with 6 DS values and byte-register aliasing (8 registers x 256 values x parent lattice)".into();
-    cov.bounds = json!({"mem_shapes": n, "register_values": if tier.thorough {6} else {4}, "segments": 6, "tier": tier.name()});
+    cov.bounds = json!({"mem_shapes": n, "register_values": if tier.thorough {15} else {4}, "segments": if tier.thorough {10} else {6}, "tier": tier.name()});
     cov.assumptions = common_assumptions();
     cov.assumptions.push("physical address = (segment*16 + ((base+index+disp) mod 2^16)) mod 2^20; default segment SS iff BP is the base".into());
     let cov = finish_cov(&c, cov);
